@@ -24,7 +24,7 @@ def run(ck):
     rep = vh(["wire", "typed", "--cases", p["hwire"], "--seed", ck.seed], timeout=7000, crash=(ck, "C10/crash/signal-in-wire-replay", ""))
     if rep["stats"]:
         ck.add_vh(rep, distinct_key="distinct_cases", panics_only=True)
-    sub, ed, tb = c07.gen(ck)
+    sub, ed, tb, _sz = c07.gen(ck)
     rep = vh(["psetcodec", "edits", "--cases", ed, "--tables", tb, "--seed", ck.seed], timeout=7000, crash=(ck, "C10/crash/signal-in-pset-replay", ""))
     if rep["stats"]:
         ck.add_vh(rep, distinct_key="distinct_cases", panics_only=True)
